@@ -11,7 +11,7 @@ import ast
 from .. import AnalysisError, AnchorMissing
 from ..cfg import cfg_of
 from ..model import own_nodes
-from ..values import pattern, match, find, contains, show, subterms, subst, expander_of
+from ..values import pattern, match, match_any, find, contains, show, subterms, subst, expander_of
 from .base import obligation, src, callee_name
 
 NPY = 'elfi.store:NpyArray'
@@ -1120,3 +1120,313 @@ def pattern_term_(srcp):
 def enclosing_loop_(n):
     from .C04 import enclosing_loop
     return enclosing_loop(n)
+
+
+from .C04 import pattern_term, returns   # noqa: E402
+
+
+@obligation('C06-i', 'T5 T6 T11', 'the array store is a sequence of batches: write at most one past '
+            'the end, count once, delete only the last, read the same slice', floor=9,
+            necessary='a write beyond the end leaves a gap, a count that moves on overwrite or '
+                      'stays on append misreports the batches, a delete in the middle shifts '
+                      'every later batch')
+def c06_i(ctx):
+    st = ctx.cls('elfi.store:ArrayStore')
+    NBT = pattern_term('self.n_batches')
+    # __getitem__ / __setitem__ use the same slice function
+    gi, si, di = (ctx.own_method(st, n) for n in ('__getitem__', '__setitem__', '__delitem__'))
+    exg, exs, exd = ctx.ex(gi), ctx.ex(si), ctx.ex(di)
+    rr = returns(gi)
+    ok = len(rr) == 1 and match(exg.term(rr[0].value),
+                                pattern('self.array[self._to_slice(batch_index)]')) is not None
+    ctx.check(ok, gi, 'read: array[slice of the batch]', 'self.array[self._to_slice(i)]',
+              'a batch is not read from its own slice of the array', fn=gi,
+              node=rr[0] if rr else gi.node)
+    wr = [s for s in own_nodes(si.node) if isinstance(s, ast.Assign) and
+          isinstance(s.targets[0], ast.Subscript) and
+          exs.term(s.targets[0].value) == pattern_term('self.array')]
+    ok = len(wr) == 1 and exs.term(wr[0].targets[0].slice) == \
+        pattern_term('self._to_slice(batch_index)') and \
+        exs.term(wr[0].value) == ('param', si.params[2]) and \
+        cfg_of(si).must_pass([ctx.node(si, wr[0])])
+    ctx.check(ok, si, 'write: array[slice of the batch] = data on every returning path',
+              'self.array[self._to_slice(i)] = data',
+              'the data are not written to the batch\'s own slice on every path', fn=si,
+              node=wr[0] if wr else si.node)
+    raises = ctx.stmts(si, ast.Raise)
+
+    def raised_under(f, pats):
+        for r in ctx.stmts(f, ast.Raise):
+            for (t, pol, _) in ctx.guards(f, r):
+                if pol and t[0] != 'bool' and match_any(t, pats) is not None:
+                    return r
+        return None
+    r1 = raised_under(si, ('self.n_batches < batch_index',))
+    ctx.check(r1 is not None, si, 'refuses a write beyond one past the end',
+              'raise if batch_index > n_batches',
+              'a batch index beyond n_batches is not refused (a gap of unwritten batches)',
+              fn=si, node=r1 or si.node)
+    r2 = raised_under(si, ('len(self.array) < self._to_slice(batch_index).stop',))
+    ctx.check(r2 is not None, si, 'refuses a write beyond the array',
+              'raise if slice.stop > len(array)',
+              'a slice that ends beyond the array is not refused', fn=si, node=r2 or si.node)
+    if wr and (r1 is not None) and (r2 is not None):
+        ok = ctx.must_precede(si, [r1._parent], wr[0]) and ctx.must_precede(si, [r2._parent], wr[0])
+        ctx.check(ok, si, 'checks precede the write', '', 'the array is written before the index '
+                  'checks', fn=si, node=wr[0])
+    inc = [s for (s, t, k) in ctx.stores(si, 'self.n_batches')]
+    ok = len(inc) == 1 and isinstance(inc[0], ast.AugAssign) and isinstance(inc[0].op, ast.Add) \
+        and exs.raw(inc[0].value) == ('const', 1) and \
+        any(pol and t[0] != 'bool' and match(t, pattern('batch_index == self.n_batches'))
+            is not None for (t, pol, _) in ctx.guards(si, inc[0]))
+    ctx.check(ok, si, 'count grows by one exactly on append', 'if i == n_batches: n_batches += 1',
+              'n_batches is not increased by one exactly when the written index equals it',
+              fn=si, node=inc[0] if inc else si.node)
+    if inc and wr:
+        ctx.check(ctx.must_precede(si, wr, inc[0]), si, 'count moves after the data are in', '',
+                  'n_batches is increased before the data are written', fn=si, node=inc[0])
+    # delete
+    r3 = raised_under(di, ('batch_index not in self',))
+    r4 = raised_under(di, ('batch_index != self.n_batches - 1',))
+    ctx.check(r3 is not None and r4 is not None, di, 'delete refuses absent and non-last batches',
+              'raise unless batch_index == n_batches - 1',
+              'deleting an absent batch or a batch in the middle is not refused', fn=di,
+              node=r3 or r4 or di.node)
+    dec = [s for (s, t, k) in ctx.stores(di, 'self.n_batches')]
+    ok = len(dec) == 1 and isinstance(dec[0], ast.AugAssign) and isinstance(dec[0].op, ast.Sub) \
+        and exd.raw(dec[0].value) == ('const', 1) and \
+        all(not cfg_of(di).exists_path(ctx.node(di, dec[0]), ctx.node(di, r))
+            for r in ctx.stmts(di, ast.Raise))
+    # reached only for the last batch: every path to it passes the two refusals
+    if dec and r3 is not None and r4 is not None:
+        ok = ok and ctx.must_precede(di, [r3._parent], dec[0])
+    ctx.check(ok, di, 'deleting the last batch lowers the count by one', 'n_batches -= 1',
+              'the count is not lowered by exactly one for the last batch', fn=di,
+              node=dec[0] if dec else di.node)
+    # construction: all complete batches of the array unless told otherwise
+    init = ctx.own_method(st, '__init__')
+    exi = ctx.ex(init)
+    stn = [s for (s, t, k) in ctx.stores(init, 'self.n_batches') if k == 'assign']
+    ok = False
+    if stn:
+        v = exi.term(stn[-1].value)
+        alts = v[1] if v[0] == 'phi' else (v,)
+        ok = any(match(a, pattern('len(array) // batch_size')) is not None for a in alts) and \
+            any(a == ('param', 'n_batches') for a in alts)
+    ctx.check(ok, init, 'initial count = complete batches of the array (or as given)',
+              'len(array) // batch_size', 'the initial batch count is not len(array) // '
+              'batch_size (or the given n_batches)', fn=init, node=stn[-1] if stn else init.node)
+    flds = {}
+    for (s, t, k) in ctx.stores(init, 'self.array') + ctx.stores(init, 'self.batch_size'):
+        if k == 'assign':
+            flds[exi.term(s.targets[0])[2]] = exi.term(s.value)
+    ctx.check(flds.get('array') == ('param', 'array') and
+              flds.get('batch_size') == ('param', 'batch_size'), init,
+              'array and batch size stored as given', '', 'array / batch_size are not stored as '
+              'given', fn=init, node=init.node)
+    ln = ctx.own_method(st, '__len__')
+    rl = returns(ln)
+    ctx.check(len(rl) == 1 and ctx.ex(ln).term(rl[0].value) == NBT, ln, 'len = batch count',
+              'return self.n_batches', 'len() of the store is not the batch count', fn=ln,
+              node=rl[0] if rl else ln.node)
+
+
+@obligation('C06-j', 'T14 T6 T3', 'byte layout: data are appended at header_length + size * '
+            'itemsize, read through a map at offset header_length with the array\'s dtype and '
+            'shape; an existing file is reopened without truncation', floor=10,
+            necessary='another write position overwrites stored batches or leaves a hole; '
+                      'another map window reads shifted values; opening an existing file in a '
+                      'truncating mode loses every stored batch on reopen')
+def c06_j(ctx):
+    from .. import symdiff as sd
+    from ..ratfun import Rat, Unsupported
+    na = ctx.cls(NPY)
+    ap = ctx.own_method(na, 'append')
+    ex = ctx.ex(ap)
+    alg = sd.Algebra()
+
+    def leaf(t):
+        if t[0] == 'attr' and t[1] in (('param', 'self'), ('name', 'self')):
+            return Rat.sym(t[2])
+        return None
+    # size = product of the shape
+    sz = na.lookup('size')
+    rs = returns(sz) if sz is not None else []
+    ok = len(rs) == 1 and match(ctx.ex(sz).term(rs[0].value), pattern('np.prod(self.shape)')) \
+        is not None
+    ctx.check(ok, sz or na.qname, 'size = number of items', 'np.prod(self.shape)',
+              'size is not the product of the shape', fn=sz, node=rs[0] if rs else None)
+    seeks = ctx.calls(ap, 'self.fs.seek(_)')
+    writes = ctx.calls(ap, 'self.fs.write(_)')
+    okp = False
+    if len(seeks) == 1:
+        try:
+            pos = sd.convert(ex.term(seeks[0].args[0]), alg, leaf)
+            okp = alg.same(pos, Rat.sym('header_length') + Rat.sym('size') * Rat.sym('itemsize'))
+        except Unsupported:
+            okp = False
+    ctx.check(okp, ap, 'append position', 'header_length + size * itemsize',
+              'new data are not written at header_length + size * itemsize (the end of the '
+              'stored data)', fn=ap, node=seeks[0] if seeks else ap.node)
+    okw = len(writes) == 1 and match(ex.term(writes[0].args[0]),
+                                     pattern("array.tobytes('C')")) is not None and \
+        bool(seeks) and ctx.must_precede(ap, [ctx_stmt(seeks[0])], ctx_stmt(writes[0]))
+    ctx.check(okw, ap, 'row-major bytes of the appended array written after the seek',
+              "fs.write(array.tobytes('C'))", 'the appended bytes are not the row-major bytes of '
+              'the array written at the sought position', fn=ap,
+              node=writes[0] if writes else ap.node)
+    # the position is computed from the shape *before* it is enlarged
+    shp = [s for (s, t, k) in ctx.stores(ap, 'self.shape') if k == 'assign']
+    oks = False
+    if shp and seeks:
+        v = ex.term(shp[0].value)
+        oks = match(v, pattern('(self.shape[0] + len(array),) + self.shape[1:]')) is not None and \
+            ctx.must_precede(ap, [ctx_stmt(writes[0])] if writes else [], shp[0]) and \
+            ctx.must_precede(ap, [ctx_stmt(seeks[0])], shp[0])
+    ctx.check(oks, ap, 'length grows by the appended rows, after the write',
+              'shape = (shape[0] + len(array),) + shape[1:]',
+              'the stored length does not grow by len(array) after the data were written',
+              fn=ap, node=shp[0] if shp else ap.node)
+    # refusals: trailing shape and dtype agree with the stored array
+    def refused(pats):
+        for r in ctx.stmts(ap, ast.Raise):
+            for (t, pol, _) in ctx.guards(ap, r):
+                if pol and t[0] != 'bool' and match_any(t, pats) is not None:
+                    return r
+        return None
+    r1 = refused(('array.shape[1:] != self.shape[1:]',))
+    r2 = refused(('array.dtype != self.dtype',))
+    ctx.check(r1 is not None and r2 is not None, ap, 'rows of another shape or dtype are refused',
+              'raise on shape[1:] / dtype mismatch', 'an array with another trailing shape or '
+              'dtype is not refused before it is appended', fn=ap, node=r1 or r2 or ap.node)
+    if r1 is not None and writes:
+        ctx.check(ctx.must_precede(ap, [r1._parent], ctx_stmt(writes[0])), ap,
+                  'refusal precedes the write', '', 'bytes are written before the shape / dtype '
+                  'check', fn=ap, node=writes[0])
+    # memory map window
+    mm = na.lookup('memmap')
+    exm = ctx.ex(mm)
+    mcs = ctx.calls(mm, 'np.memmap(*_)')
+    okm = False
+    if len(mcs) == 1:
+        c = mcs[0]
+        kw = dict((k.arg, exm.term(k.value)) for k in c.keywords)
+        okm = exm.term(c.args[0]) == pattern_term('self.fs') and \
+            kw.get('dtype') == pattern_term('self.dtype') and \
+            kw.get('shape') == pattern_term('self.shape') and \
+            kw.get('offset') == pattern_term('self.header_length')
+    ctx.check(okm, mm, 'map window = (file, dtype, shape, offset header_length)',
+              'np.memmap(fs, dtype=dtype, shape=shape, offset=header_length)',
+              'the memory map does not cover exactly the stored array (dtype, shape, data '
+              'offset)', fn=mm, node=mcs[0] if mcs else mm.node)
+    # open modes
+    init = ctx.own_method(na, '__init__')
+    exi = ctx.ex(init)
+    opens = ctx.calls(init, 'open(*_)')
+    modes = {}
+    for c in opens:
+        mode = exi.term(c.args[1]) if len(c.args) > 1 else None
+        facts = []
+        seen_t = set()
+        for (t, pol, tast) in ctx.guards(init, c):
+            if id(tast) in seen_t:
+                continue
+            seen_t.add(id(tast))
+            # raw facts (the flag is re-bound before the test; its name is what is tested)
+            cfgpol = [p_ for (n_, p_) in cfg_of(init).guards_of(ctx.node(init, c))
+                      if n_.ast is tast]
+            if not cfgpol:
+                continue
+            rt = exi.raw(tast)
+            pol_ = cfgpol[0]
+            while rt[0] == 'unary' and rt[1] == 'not':
+                rt = rt[2]
+                pol_ = not pol_
+            items = list(rt[2]) if rt[0] == 'bool' and rt[1] == 'and' and pol_ else [rt]
+            if rt[0] == 'bool' and rt[1] == 'and' and not pol_:
+                items = []      # a false conjunction states nothing about its parts
+            for it in items:
+                facts.append((it, pol_))
+        keep = any(pol and match(t, pattern('os.path.exists(self.filename)')) is not None
+                   for (t, pol) in facts) and \
+            any(pol and match_any(t, ('truncate is False', 'not truncate')) is not None or
+                ((not pol) and t in (('name', 'truncate'), ('param', 'truncate')))
+                for (t, pol) in facts)
+        modes[c] = (mode, keep)
+    ok_keep = any(m == ('const', 'r+b') and keep for (m, keep) in modes.values())
+    ok_new = any(m == ('const', 'w+b') and not keep for (m, keep) in modes.values())
+    bad_keep = any(keep and m is not None and m[0] == 'const' and 'w' in str(m[1])
+                   for (m, keep) in modes.values())
+    ctx.check(ok_keep and ok_new and not bad_keep, init,
+              'existing file reopened with r+b, otherwise created with w+b',
+              "open(filename, 'r+b') if not truncate and exists else open(filename, 'w+b')",
+              'an existing file is not reopened in a non-truncating read/write mode (or a new '
+              'file is not created)', fn=init, node=opens[0] if opens else init.node)
+    hdr = ctx.calls(init, 'self._init_from_file_header()')
+    okh = bool(hdr) and all(modes.get(c, (None, False))[1] or True for c in opens) and \
+        any(pol and match(t, pattern('os.path.exists(self.filename)')) is not None
+            for (t, pol, _) in ctx.guards(init, hdr[0])) if hdr else False
+    ctx.check(okh, init, 'header of an existing file is read on reopen', '',
+              'the header of an existing file is not read when it is reopened', fn=init,
+              node=hdr[0] if hdr else init.node)
+    # reading the header back
+    fh = ctx.own_method(na, '_init_from_file_header')
+    exf = ctx.ex(fh)
+    sk = ctx.calls(fh, 'self.fs.seek(_)')
+    rd = ctx.calls(fh, 'npformat.read_array_header_2_0(self.fs)')
+    hl = [s for (s, t, k) in ctx.stores(fh, 'self.header_length') if k == 'assign']
+    okf = len(sk) >= 1 and exf.term(sk[0].args[0]) in (pattern_term('self.HEADER_DATA_SIZE_OFFSET'),
+                                                       ('const', 8)) and len(rd) == 1 and \
+        ctx.must_precede(fh, [ctx_stmt(sk[0])], ctx_stmt(rd[0])) and bool(hl) and \
+        match(exf.term(hl[0].value), pattern('self.fs.tell()')) is not None and \
+        ctx.must_precede(fh, [ctx_stmt(rd[0])], hl[0])
+    ctx.check(okf, fh, 'header read from offset 8; data start where the header ends',
+              'seek(8); read_array_header_2_0; header_length = tell()',
+              'the stored header is not parsed from byte 8 with header_length taken right after '
+              'it', fn=fh, node=rd[0] if rd else fh.node)
+    isz = [s for (s, t, k) in ctx.stores(fh, 'self.itemsize') if k == 'assign']
+    oki = bool(isz) and contains(exf.term(isz[0].value), 'self.dtype') and \
+        match(exf.term(isz[0].value), pattern('_a.itemsize')) is not None
+    ctx.check(oki, fh, 'item size from the stored dtype', 'np.empty(.., dtype=self.dtype).itemsize',
+              'itemsize is not derived from the dtype read from the file', fn=fh,
+              node=isz[0] if isz else fh.node)
+    # header padding: the prepared header fills exactly header_length bytes
+    ph = ctx.own_method(na, '_prepare_header_data')
+    exh = ctx.ex(ph)
+    pads = [c for c in ctx.calls(ph) if isinstance(c.func, ast.Attribute) and
+            c.func.attr == 'write' and c.args and
+            exh.term(c.args[0])[0] == 'binop' and exh.term(c.args[0])[1] == '*']
+    okpad = False
+    if pads:
+        t = exh.term(pads[0].args[0])
+        m = match(t, pattern("_b * (self.header_length - _h.tell())"))
+        okpad = m is not None
+    ovf = None
+    for r in ctx.stmts(ph, ast.Raise):
+        for (t, pol, _) in ctx.guards(ph, r):
+            if pol and match(t, pattern('self.header_length - _h.tell() < 0')) is not None:
+                ovf = r
+    ctx.check(okpad and ovf is not None, ph, 'header padded to header_length, overflow refused',
+              "write(b' ' * (header_length - tell())); raise if negative",
+              'the prepared header is not padded to exactly header_length bytes (or a header '
+              'that does not fit is not refused)', fn=ph, node=pads[0] if pads else ph.node)
+    dct = [s for s in own_nodes(ph.node) if isinstance(s, ast.Assign) and
+           isinstance(s.value, ast.Dict)]
+    okd = False
+    if dct:
+        d = dict((k.value, exh.term(v)) for k, v in zip(dct[0].value.keys, dct[0].value.values)
+                 if isinstance(k, ast.Constant))
+        okd = d.get('shape') == pattern_term('self.shape') and \
+            d.get('fortran_order') == pattern_term('self.fortran_order') and \
+            d.get('descr') is not None and contains(d['descr'], 'self.dtype')
+    ctx.check(okd, ph, 'header describes the current shape and dtype',
+              "{'shape': self.shape, 'fortran_order': .., 'descr': dtype_to_descr(self.dtype)}",
+              'the prepared header does not describe the current shape / order / dtype', fn=ph,
+              node=dct[0] if dct else ph.node)
+
+
+def ctx_stmt(node):
+    n = node
+    while n is not None and not isinstance(n, ast.stmt):
+        n = getattr(n, '_parent', None)
+    return n
